@@ -112,9 +112,8 @@ Qed.
 
 Lemma without_keys_nil : forall ch, without_keys [] ch = ch.
 Proof.
-  intros ch. unfold without_keys. induction ch as [|a ch IH]; simpl.
-  - reflexivity.
-  - rewrite IH. reflexivity.
+  intros ch. unfold without_keys. apply filter_all_true.
+  apply Forall_forall. intros x Hx. reflexivity.
 Qed.
 
 Lemma first_split_perm : forall ks ch, NoDup ks ->
@@ -148,7 +147,7 @@ Qed.
 
 Lemma order_children_perm : forall cname ch, Permutation (order_children cname ch) ch.
 Proof.
-  intros cname ch. unfold order_children. destruct (eqs cname (str "VCALENDAR")).
+  intros cname ch. unfold order_children. destruct (eqs cname _).
   - apply order_vcalendar_perm.
   - apply order_default_perm.
 Qed.
@@ -256,7 +255,7 @@ Proof.
   - destruct (str_ltb (key_of h) (key_of x)) eqn:Hlt.
     + constructor.
       * exact IH.
-      * apply (Permutation_Forall (l := x :: t)).
+      * apply (Permutation_Forall (x := x :: t)).
         { symmetry. apply insert_node_perm. }
         constructor; [|exact Hall]. apply str_ltb_asym. exact Hlt.
     + constructor.
@@ -296,7 +295,7 @@ Proof.
     apply filter_In in Hx. destruct Hx as [_ Hx]. apply eqs_eq in Hx. subst k.
     apply mem_str_In in Hin. rewrite Hin. reflexivity. }
   assert (HB : Forall (fun x => negb (mem_str (key_of x) first) = true) B).
-  { unfold B. apply (Permutation_Forall (l := without_keys first ch)).
+  { unfold B. apply (Permutation_Forall (x := without_keys first ch)).
     - symmetry. apply sort_nodes_perm.
     - unfold without_keys. apply Forall_filter_true. }
   assert (HW : without_keys first (A ++ B) = B).
@@ -305,11 +304,16 @@ Proof.
   rewrite HW. unfold B. rewrite sort_nodes_idem. reflexivity.
 Qed.
 
-Lemma order_vcalendar_idem : forall ch, order_vcalendar (order_vcalendar ch) = order_vcalendar ch.
+Lemma order_split_idem : forall c ch,
+  order_default c (filter (fun x => negb (is_comp x))
+     (order_default c (filter (fun x => negb (is_comp x)) ch) ++ order_default c (filter is_comp ch)))
+  ++ order_default c (filter is_comp
+     (order_default c (filter (fun x => negb (is_comp x)) ch) ++ order_default c (filter is_comp ch)))
+  = order_default c (filter (fun x => negb (is_comp x)) ch) ++ order_default c (filter is_comp ch).
 Proof.
-  intros ch. unfold order_vcalendar.
-  set (P := order_default (str "VCALENDAR") (filter (fun x => negb (is_comp x)) ch)).
-  set (Q := order_default (str "VCALENDAR") (filter is_comp ch)).
+  intros c ch.
+  set (P := order_default c (filter (fun x => negb (is_comp x)) ch)).
+  set (Q := order_default c (filter is_comp ch)).
   assert (HP : Forall (fun x => negb (is_comp x) = true) P).
   { unfold P. eapply Permutation_Forall.
     - symmetry. apply order_default_perm.
@@ -331,10 +335,13 @@ Proof.
   unfold P, Q. rewrite !order_default_idem. reflexivity.
 Qed.
 
+Lemma order_vcalendar_idem : forall ch, order_vcalendar (order_vcalendar ch) = order_vcalendar ch.
+Proof. intros ch. unfold order_vcalendar. apply order_split_idem. Qed.
+
 Lemma order_children_idem : forall cname ch,
   order_children cname (order_children cname ch) = order_children cname ch.
 Proof.
-  intros cname ch. unfold order_children. destruct (eqs cname (str "VCALENDAR")).
+  intros cname ch. unfold order_children. destruct (eqs cname _).
   - apply order_vcalendar_idem.
   - apply order_default_idem.
 Qed.
@@ -398,7 +405,7 @@ Section MapCommute.
 
   Lemma order_children_map : forall cname l, order_children cname (map f l) = map f (order_children cname l).
   Proof.
-    intros cname l. unfold order_children. destruct (eqs cname (str "VCALENDAR")).
+    intros cname l. unfold order_children. destruct (eqs cname _).
     - apply order_vcalendar_map.
     - apply order_default_map.
   Qed.
